@@ -14,7 +14,7 @@ from hxv.gen import streams
 from hxv.instr.monlist import MonitoredList, ReadSink, direct_call
 
 boot.boot()
-from hexital import Candle  # noqa: E402
+from hexital import Candle, Hexital  # noqa: E402
 from hexital.analysis import MOVEMENT_MAP, PATTERN_MAP, movement  # noqa: E402
 from hexital.indicators import Amorph  # noqa: E402
 from hexital.utils.indexing import round_values  # noqa: E402
@@ -33,6 +33,7 @@ TWO = {"cross", "crossover", "crossunder"}
 FUNCS = dict(MOVEMENT_MAP)
 FUNCS["above"] = movement.above
 FUNCS["below"] = movement.below
+ALLMAP = {**MOVEMENT_MAP, **PATTERN_MAP}
 LENGTHS = [1, 2, 3, 4, 7, 30]
 LOOKBACKS = [None, 1, 3, 12]
 NAMES = ["A", "B", "close", "Z"]
@@ -151,6 +152,19 @@ def run_case(case):
                 V("exception", f"C16|raises-amorph|{fname}|{type(e).__name__}", f"Amorph({fname}, {kw}) on {n} candles: {e!r}")
                 continue
             stats["amorph_columns_compared"] = stats.get("amorph_columns_compared", 0) + 1
+            key = next((k for k, v in ALLMAP.items() if v is f), None)
+            if key is not None and fname not in ("above", "below"):
+                try:
+                    args = {k: v for k, v in kw.items() if v is not None}
+                    hx = Hexital("h", build(case), [{"analysis": key, **({"args": args} if args else {})}])
+                    hx.calculate()
+                    hcol = hx.reading_as_list(batch.name)
+                    stats["dict_wrapper_columns_compared"] = stats.get("dict_wrapper_columns_compared", 0) + 1
+                    if not same(hcol, bcol):
+                        i = next(i for i in range(n) if not same(hcol[i], bcol[i]))
+                        V("dict-wrapper", f"C16|dict-wrapper|{fname}", f"Hexital dict form {{'analysis': {key!r}, 'args': {args}}} candle {i}/{n}: {hcol[i]!r} vs Amorph {bcol[i]!r}")
+                except Exception as e:
+                    V("exception", f"C16|raises-dict-wrapper|{fname}|{type(e).__name__}", f"Hexital dict form for {key} {kw}: {e!r}")
             if not same(bcol, lcol):
                 i = next(i for i in range(n) if not same(bcol[i], lcol[i]))
                 V("amorph-live-vs-batch", f"C16|amorph-live-batch|{fname}", f"Amorph({fname},{kw}) candle {i}/{n}: batch {bcol[i]!r} live {lcol[i]!r}")
